@@ -102,6 +102,6 @@ res["caught_by"] = [c for c, r in res["checks"].items() if r["rc"] == 1]
 shutil.copy(f"{src}/patch_rebased.diff", f"{d}/patch.diff")
 if os.path.exists(f"{d}/demo"):
     shutil.rmtree(f"{d}/demo")
-shutil.copytree(f"{src}/demo", f"{d}/demo", ignore=shutil.ignore_patterns("target", "Cargo.lock", "*.log"))
+shutil.copytree(f"{src}/demo", f"{d}/demo", symlinks=True, ignore_dangling_symlinks=True, ignore=shutil.ignore_patterns("target", "Cargo.lock", "*.log"))
 json.dump(res, open(f"{d}/meta.json", "w"), indent=1)
 print(json.dumps({"confirmed": res.get("confirmed"), "caught_by": res["caught_by"]}))
